@@ -21,7 +21,7 @@ CHECKS = {
    note="A pass must collect after 1h idle when the table was written since the last pass, must not run within 4 minutes of a data request; in between not judged.",
    ref="§4 C16"),
  "C18": dict(engine="SCHED", technique="stateless model checking of a multi-message scan against concurrent writers under a controlled scheduler, per-row version oracle from the reference model",
-   text="One ReadRows scan whose rows exceed 1024 cells (so it streams several messages and gives up the table lock at each Send) runs against 1-2 writer threads (SetCell, delete row, new rows before/between/after, read-modify-write, multi-row write); every interleaving within the preemption bound is executed on the leveldb engines; the result must be OK, well-formed, strictly ascending, and every returned row must equal one state that row had during the scan; untouched rows exact.",
+   text="One ReadRows scan whose rows exceed 1024 cells (so it streams several messages and gives up the table lock at each Send) runs against 1-2 writer threads (SetCell, delete row, new rows before/between/after, read-modify-write, multi-row write); every interleaving within the preemption bound is executed on the leveldb engines, including scans over 230 rows (longer than the batching constants of the engines) with runs of rows around the 100th / 200th position deleted or rewritten in a lock gap, and a rejected multi-rule read-modify-write; the result must be OK, well-formed, strictly ascending, and every returned row must equal one state that row had during the scan; untouched rows exact.",
    note="leveldb engines only, as the property says. Row versions come from the reference model applied to the recorded write history.",
    ref="§4 C18"),
  "C19": dict(engine="SCHED", technique="stateless model checking of the real TransientLockMap at the granularity of its internal steps (map mutex, channel select with explorer-chosen ready case), every key assignment, cancellation and bad unlock",
@@ -33,7 +33,7 @@ CHECKS = {
    note="Generations are adopted from the responses and must be fresh and increasing. Scheduling-point atomicity is sound for data-race-free code (C20 runs the race detector).",
    ref="§4 C07"),
  "C08": dict(engine="CRASH", level="fault_enumeration", technique="enumeration of every (request program x crash point) pair with a real SIGKILL of a child process and recovery on the same directory",
-   text="Every request program up to the depth bound x every crash point of its last request (request boundaries; before and after every file-system call made by metadata persistence, table create and table clear; thorough: every single unlink of a directory removal), executed by a child process on LeveldbDiskStorage that is killed with SIGKILL at the point; the parent restarts the service on the directory and compares tables, families, GC rules and all rows with the model of the acknowledged requests (in-flight request wholly present or absent); crash-restart chains of length 2-3.",
+   text="Every request program up to the depth bound x every crash point of its last request (request boundaries; before and after every file-system call made by metadata persistence, table create and table clear; thorough: every single unlink of a directory removal), executed by a child process on LeveldbDiskStorage that is killed with SIGKILL at the point (the child serves through the public constructor NewServerWithOptions); the parent restarts the service on the directory through the same public constructor and compares tables, families, GC rules and all rows with the model of the acknowledged requests (in-flight request wholly present or absent); crash-restart chains of length 2-3: every kill inside a schema / clear / create / delete request is followed by every second program of a catalogue (write; write+clear; delete+create+write; create+write+prefix drop ...). One open known finding (drop + re-create of the same family in one request) is recognised by a defect-aware model variant.",
    note="Crash model = process kill (what the statement says), not power loss. goleveldb's atomic Put/Delete and the kernel's atomic rename are trusted. Row-write points inside one multi-row request are not crash points.",
    ref="§4 C08"),
  "C20": dict(engine="SCHED", engines=["SCHED","SEQ"], technique="bounded-exhaustive input perturbation catalogue (one-thread controlled executions) plus preemption-bounded exploration of request mixes built with the race detector and a hand-off that adds no happens-before edge",
@@ -48,8 +48,8 @@ CHECKS = {
    text="Every sequence up to the depth bound over writes by every protocol, compose, copy, patches (user-settable, intrinsic-field and malformed bodies), reads, listings, failing requests, deletes and re-creations, for both stores and clock steps of 1 ns / 1 µs / 1 s; after every request the versioning laws are checked against the model (strictly increasing per-name generation, metageneration 1 / +1, nothing else changes, all reporting places agree).",
    note="The wall clock is the vtime seam: strictly increasing, never frozen or stepped back.",
    ref="§4 C10"),
- "C11": dict(engine="SEQ", technique="exhaustive product: every subset of an 8-name universe x prefix x delimiter x page size x store on the real HTTP handler, page chains followed to the end",
-   text="Every subset of the name universe (256) x 8 prefixes x 5 delimiters x 5 page sizes x 2 stores; every page chain is followed until nextPageToken is empty and the concatenation is compared with the model listing (completeness, order, no repeats across pages, page sizes, item metadata), plus missing bucket and malformed token / maxResults.",
+ "C11": dict(engine="SEQ", technique="exhaustive product: every subset of an 8-name universe (and of a 7-name Unicode universe) x prefix x delimiter x page size x store on the real HTTP handler, page chains followed to the end",
+   text="Every subset of the name universe (256) x 8 prefixes x 5 delimiters x 5 page sizes x 2 stores; every page chain is followed until nextPageToken is empty and the concatenation is compared with the model listing (completeness, order, no repeats across pages, page sizes, item metadata), plus missing bucket and malformed token / maxResults. A second universe holds names with 2/3/4-byte UTF-8 sequences and U+10FFFF (bytewise order differs from code-unit order; names sorting above the resume cursor of a collapsed prefix).",
    note="File store: subsets that are not representable as files (a name that is also a directory of another) are skipped and counted.",
    ref="§4 C11"),
  "C15": dict(engine="SEQ", technique="bounded-exhaustive enumeration of compose source lists and copy source/destination combinations on the real HTTP handler, reference-model oracle with follow-up patches",
@@ -77,11 +77,11 @@ CHECKS = {
    note="Trusted: reference model. NotFound/AlreadyExists required exactly, other failures as any non-OK.",
    ref="§4 C14"),
  "C17": dict(engine="SEQ", technique="explicit-state BFS over request programs run on all storage engines side by side, pairwise positional comparison of every response",
-   text="Differential model checking: every program up to the depth bound over an alphabet of admin/data requests (including filters that fail only on some rows, limits, drops, clears, re-created tables, a GC pass) is executed on btree, leveldb-mem (and leveldb-disk in the thorough tier) and every response plus a full read of every table is compared pairwise, positionally.",
+   text="Differential model checking: every program up to the depth bound over an alphabet of admin/data requests (including filters that fail only on some rows, limits, drops, clears, re-created tables, a GC pass) is executed on btree, leveldb-mem (and leveldb-disk in the thorough tier) and every response plus a full read of every table is compared pairwise, positionally; plus a catalogue pass on a table of keys differing by trailing 0x00/0xff bytes: all 225 single row ranges (with and without an extra key and limit) and 11 DropRowRange prefixes (incl. empty and all-0xff).",
    note="No reference model involved: the oracle is agreement between engines. Error message texts are not compared.",
    ref="§4 C17"),
  "C01": dict(engine="SEQ", technique="explicit-state BFS over request sequences on the real service, reference-model oracle",
-   text="Bounded-exhaustive explicit-state model checking of the real bttest service: every sequence of single-mutation requests up to the depth bound (dedup on model state + raw stored rows), plus the full boundary catalogue of mutations and all ordered pairs of core mutations (MutateRow and MutateRows) from every shallow state; after every request the response and a complete unfiltered read are compared with an independent reference model of the Bigtable data model. Right level: the property quantifies over request programs and inputs; enumerating them on the implementation leaves no model-fidelity gap.",
+   text="Bounded-exhaustive explicit-state model checking of the real bttest service: every sequence of single-mutation requests up to the depth bound (dedup on model state + raw stored rows), plus the full boundary catalogue of mutations, all ordered pairs of core mutations (MutateRow and MutateRows) and all ordered triples of a 9-mutation core in one request from every shallow state; after every request the response and a complete unfiltered read are compared with an independent reference model of the Bigtable data model. Right level: the property quantifies over request programs and inputs; enumerating them on the implementation leaves no model-fidelity gap.",
    note="Trusted: reference model bt/model.go (naive maps), Go runtime, protobuf; family order inside a row is unspecified (compared as a set). Bounds (depth, alphabets, engines per tier) are reported in the evidence.",
    ref="§4 C01"),
 }
